@@ -1,67 +1,50 @@
 import SC.Proofs.AsmLemmas
 import SC.Gen.AsmFacts
 /-!
-The regenerated `len < 16` programs of the search kernels, run on the instruction-level model,
-compute the block model `Kern.small` — result and loads — for every memory, base address, length < 16
-and needle byte.
+The regenerated kernel bodies (`Gen.Asm.body_*`: every label of the body, instruction by instruction), run on the
+instruction-level model from label `small`: the `len < 16` paths compute the block models `Kern.small` /
+`Kern.cntSmall` — result and loads — for every memory, base address, length < 16 and needle byte, from any
+machine state that has `SI` = data, `BX` = length and the lanes the prologue sets.
+(This file is instantiated from one template per kind of body: `tools/…` is not involved; see the git history.)
 -/
 namespace Asm
 open Kern
 
-/-- machine state at label `small`: `SI` = data, `BX` = length, `X0` = the needle byte in every lane,
-    `X2` = 0x20 in every lane (the bodies' prologues broadcast them); every other register, the lanes of `X1` and the
-    flags are arbitrary (`junk`, `jx`, `jz`, `jc`) -/
-def init (mem : Nat → UInt8) (base len : Nat) (x0 : UInt8) (junk : Reg → Nat := fun _ => 0) (jx : Nat → UInt8 := fun _ => 0)
-    (jz jc : Bool := false) : St where
-  r := fun q => match q with | .BX => len | .SI => base | q => junk q
-  x := fun q j => match q with | .X0 => x0 | .X2 => 0x20 | .X1 => jx j
-  zf := jz
-  cf := jc
-  mem := mem
-  loads := []
-  out := none
-
-def runSmall (p : Prog) (s : St) : St := run p 64 (block p "small") s
-
 theorem and_self_eq_zero (n : Nat) : ((n &&& n) == 0) = (n == 0) := by rw [Nat.and_self]
-
-example : (runSmall Gen.Asm.small_indexbytebody (init (fun i => if i = 4090 then 0x41 else 0) 4085 9 0x41)).out = some 5 := by
-  decide +kernel
-example : (runSmall Gen.Asm.small_indexbytebody (init (fun i => if i = 105 then 0x41 else 0) 100 9 0x41)).out = some 5 := by
-  decide +kernel
-example : (runSmall Gen.Asm.small_indexbytebody (init (fun i => if i = 105 then 0x41 else 0) 100 5 0x41)).out = some (-1) := by
-  decide +kernel
-
-end Asm
-
-namespace Asm
-open Kern
-
 theorem dispN16 : dispN 16 = 16 := by decide
 theorem dispN0 : dispN 0 = 0 := by decide
 theorem dispNm16 : dispN (-16) = W64 - 16 := by decide
 
-/-- symbolic execution of a regenerated small-path program -/
+/-- symbolic execution of a regenerated program -/
 macro "asm_exec" "[" ts:Lean.Parser.Tactic.simpLemma,* "]" : tactic =>
-  `(tactic| simp only [block, List.lookup, String.reduceBEq, Option.getD_some, List.map, List.flatten, List.append_nil, List.cons_append, List.nil_append, run, step, init, setR, setX, addr,
-      and_self_eq_zero, reduceCtorEq, if_false, if_true, ite_self, Bool.false_eq_true, List.nil_append, Nat.mod_mod, decide_true, decide_false, Option.map_none, Option.map_some, $ts,*])
+  `(tactic| simp only [block, String.reduceBEq, List.map, List.flatten, List.append_eq, List.append_nil, List.cons_append,
+      List.nil_append, List.append_assoc, run, step, setR, setX, addr, and_self_eq_zero, reduceCtorEq, if_false, if_true, ite_self,
+      Bool.false_eq_true, Nat.mod_mod, decide_true, decide_false, Option.map_none, Option.map_some, $ts,*])
+
+/-- a concrete run of the interpreter (end-of-page path, match in lane 5) -/
+example : (run Gen.Asm.body_indexbytebody 40 (block Gen.Asm.body_indexbytebody "small")
+    { r := fun q => match q with | .BX => 9 | .SI => 4085 | _ => 0, x := fun q _ => match q with | .X0 => 0x41 | _ => 0,
+      zf := false, cf := false, lt := false, avx2 := false, mem := fun i => if i = 4090 then 0x41 else 0, loads := [], out := none }).out
+    = some 5 := by decide +kernel
 
 set_option maxRecDepth 8000 in
-set_option maxHeartbeats 4000000 in
-/-- **`indexbytebody`, `len < 16`**: running the instructions of the working tree from label `small` stores exactly what
-    the block model `Kern.small` returns and performs exactly its load — for every memory, base, length and needle byte -/
-theorem small_indexbytebody_correct (mem : Nat → UInt8) (base len : Nat) (c : UInt8) (junk : Reg → Nat) (jx : Nat → UInt8) (jz jc : Bool)
-    (h16 : len < 16) (hb : base + 32 < 2 ^ 64) :
-    (runSmall Gen.Asm.small_indexbytebody (init mem base len c junk jx jz jc)).out = some (small (fun b => b == c) mem base len).1 ∧
-    (runSmall Gen.Asm.small_indexbytebody (init mem base len c junk jx jz jc)).loads = (small (fun b => b == c) mem base len).2 := by
+set_option maxHeartbeats 8000000 in
+/-- **`indexbytebody`, `len < 16`** -/
+theorem small_indexbytebody_correct (mem : Nat → UInt8) (base len : Nat) (c : UInt8) (s : St) (f : Nat)
+    (h16 : len < 16) (hb : base + 32 < 2 ^ 64)
+    (hSI : s.r .SI = base) (hBX : s.r .BX = len) (hX0 : ∀ j, s.x .X0 j = c) (hX2 : ∀ _j : Nat, True)
+    (hmem : s.mem = mem) (hout : s.out = none) (hl : s.loads = []) (hf : 24 ≤ f) :
+    (run Gen.Asm.body_indexbytebody f (block Gen.Asm.body_indexbytebody "small") s).out = some (small (fun b => b == c) mem base len).1 ∧
+    (run Gen.Asm.body_indexbytebody f (block Gen.Asm.body_indexbytebody "small") s).loads = (small (fun b => b == c) mem base len).2 := by
   have hlw : len % W32 = len := Nat.mod_eq_of_lt (by unfold W32; omega)
   have a16 : (base + 0 + dispN 16) % W64 = base + 16 := by rw [dispN16]; unfold W64; omega
   have a0 : (base + 0 + dispN 0) % W64 = base := by rw [dispN0]; unfold W64; omega
-  unfold runSmall small
+  obtain ⟨g, rfl⟩ : ∃ g, f = g + 24 := ⟨f - 24, by omega⟩
+  unfold small
   by_cases h0 : len = 0
   · subst h0
     rw [if_pos rfl]
-    constructor <;> asm_exec [Gen.Asm.small_indexbytebody] <;> rfl
+    constructor <;> asm_exec [Gen.Asm.body_indexbytebody, hSI, hBX, hout, hl] <;> rfl
   · rw [if_neg h0]
     have h0' : (len == 0) = false := beq_eq_false_iff_ne.mpr h0
     cases hp : ((4080 &&& (base + 16)) % 65536 == 0) with
@@ -75,17 +58,15 @@ theorem small_indexbytebody_correct (mem : Nat → UInt8) (base len : Nat) (c : 
       cases hb2 : blk (fun b => b == c) mem base 0 16 with
       | none =>
         rw [hb2] at hfb
-        constructor <;> asm_exec [Gen.Asm.small_indexbytebody, h0', a16, a0, hp, hfb]
+        constructor <;> asm_exec [Gen.Asm.body_indexbytebody, hSI, hBX, hX0, hX2, hmem, hout, hl, h0', a16, a0, hp, hfb]
       | some k =>
         rw [hb2] at hfb
         obtain ⟨_, hk16, _, _⟩ := blk_some hb2
         have hkw : k % W32 = k := Nat.mod_eq_of_lt (by unfold W32; omega)
         by_cases hkl : k < len
-        · have hd : decide (k < len) = true := decide_eq_true hkl
-          have hk63 : k < 2 ^ 63 := by omega
-          constructor <;> asm_exec [Gen.Asm.small_indexbytebody, h0', a16, a0, hp, hfb, hkw, hlw, hd, hkl, hk63]
-        · have hd : decide (k < len) = false := decide_eq_false hkl
-          constructor <;> asm_exec [Gen.Asm.small_indexbytebody, h0', a16, a0, hp, hfb, hkw, hlw, hd, hkl]
+        · have hk63 : k < 2 ^ 63 := by omega
+          constructor <;> asm_exec [Gen.Asm.body_indexbytebody, hSI, hBX, hX0, hX2, hmem, hout, hl, h0', a16, a0, hp, hfb, hkw, hlw, hkl, hk63]
+        · constructor <;> asm_exec [Gen.Asm.body_indexbytebody, hSI, hBX, hX0, hX2, hmem, hout, hl, h0', a16, a0, hp, hfb, hkw, hlw, hkl]
     | true =>
       have hpt : (base + 16) % 4096 / 16 = 0 := by
         have := pageTest (base + 16); rw [hp] at this
@@ -97,28 +78,31 @@ theorem small_indexbytebody_correct (mem : Nat → UInt8) (base len : Nat) (c : 
       cases hb2 : blk (fun b => b == c) mem (base + len - 16) (16 - len) len with
       | none =>
         rw [hb2] at hfb
-        constructor <;> asm_exec [Gen.Asm.small_indexbytebody, h0', a16, am, hp, hlw, hfb]
+        constructor <;> asm_exec [Gen.Asm.body_indexbytebody, hSI, hBX, hX0, hX2, hmem, hout, hl, h0', a16, am, hp, hlw, hfb]
       | some k =>
         rw [hb2] at hfb
         obtain ⟨_, hk16, _, _⟩ := blk_some hb2
         have hk63 : k - (16 - len) < 2 ^ 63 := by omega
-        constructor <;> asm_exec [Gen.Asm.small_indexbytebody, h0', a16, am, hp, hlw, hfb, hk63]
+        constructor <;> asm_exec [Gen.Asm.body_indexbytebody, hSI, hBX, hX0, hX2, hmem, hout, hl, h0', a16, am, hp, hlw, hfb, hk63]
 
 set_option maxRecDepth 8000 in
-set_option maxHeartbeats 4000000 in
-/-- **`indexbytebodyCase`, `len < 16`** (letter needles: data OR-ed with 0x20, compared with the lower-cased needle in `X0`) -/
-theorem small_indexbytebodyCase_correct (mem : Nat → UInt8) (base len : Nat) (c : UInt8) (junk : Reg → Nat) (jx : Nat → UInt8) (jz jc : Bool)
-    (h16 : len < 16) (hb : base + 32 < 2 ^ 64) :
-    (runSmall Gen.Asm.small_indexbytebodyCase (init mem base len c junk jx jz jc)).out = some (small (fun b => (b ||| 0x20) == c) mem base len).1 ∧
-    (runSmall Gen.Asm.small_indexbytebodyCase (init mem base len c junk jx jz jc)).loads = (small (fun b => (b ||| 0x20) == c) mem base len).2 := by
+set_option maxHeartbeats 8000000 in
+/-- **`indexbytebodyCase`, `len < 16`** -/
+theorem small_indexbytebodyCase_correct (mem : Nat → UInt8) (base len : Nat) (c : UInt8) (s : St) (f : Nat)
+    (h16 : len < 16) (hb : base + 32 < 2 ^ 64)
+    (hSI : s.r .SI = base) (hBX : s.r .BX = len) (hX0 : ∀ j, s.x .X0 j = c) (hX2 : ∀ j, s.x .X2 j = 0x20)
+    (hmem : s.mem = mem) (hout : s.out = none) (hl : s.loads = []) (hf : 24 ≤ f) :
+    (run Gen.Asm.body_indexbytebodyCase f (block Gen.Asm.body_indexbytebodyCase "small") s).out = some (small (fun b => (b ||| 0x20) == c) mem base len).1 ∧
+    (run Gen.Asm.body_indexbytebodyCase f (block Gen.Asm.body_indexbytebodyCase "small") s).loads = (small (fun b => (b ||| 0x20) == c) mem base len).2 := by
   have hlw : len % W32 = len := Nat.mod_eq_of_lt (by unfold W32; omega)
   have a16 : (base + 0 + dispN 16) % W64 = base + 16 := by rw [dispN16]; unfold W64; omega
   have a0 : (base + 0 + dispN 0) % W64 = base := by rw [dispN0]; unfold W64; omega
-  unfold runSmall small
+  obtain ⟨g, rfl⟩ : ∃ g, f = g + 24 := ⟨f - 24, by omega⟩
+  unfold small
   by_cases h0 : len = 0
   · subst h0
     rw [if_pos rfl]
-    constructor <;> asm_exec [Gen.Asm.small_indexbytebodyCase] <;> rfl
+    constructor <;> asm_exec [Gen.Asm.body_indexbytebodyCase, hSI, hBX, hout, hl] <;> rfl
   · rw [if_neg h0]
     have h0' : (len == 0) = false := beq_eq_false_iff_ne.mpr h0
     cases hp : ((4080 &&& (base + 16)) % 65536 == 0) with
@@ -132,17 +116,15 @@ theorem small_indexbytebodyCase_correct (mem : Nat → UInt8) (base len : Nat) (
       cases hb2 : blk (fun b => (b ||| 0x20) == c) mem base 0 16 with
       | none =>
         rw [hb2] at hfb
-        constructor <;> asm_exec [Gen.Asm.small_indexbytebodyCase, h0', a16, a0, hp, hfb]
+        constructor <;> asm_exec [Gen.Asm.body_indexbytebodyCase, hSI, hBX, hX0, hX2, hmem, hout, hl, h0', a16, a0, hp, hfb]
       | some k =>
         rw [hb2] at hfb
         obtain ⟨_, hk16, _, _⟩ := blk_some hb2
         have hkw : k % W32 = k := Nat.mod_eq_of_lt (by unfold W32; omega)
         by_cases hkl : k < len
-        · have hd : decide (k < len) = true := decide_eq_true hkl
-          have hk63 : k < 2 ^ 63 := by omega
-          constructor <;> asm_exec [Gen.Asm.small_indexbytebodyCase, h0', a16, a0, hp, hfb, hkw, hlw, hd, hkl, hk63]
-        · have hd : decide (k < len) = false := decide_eq_false hkl
-          constructor <;> asm_exec [Gen.Asm.small_indexbytebodyCase, h0', a16, a0, hp, hfb, hkw, hlw, hd, hkl]
+        · have hk63 : k < 2 ^ 63 := by omega
+          constructor <;> asm_exec [Gen.Asm.body_indexbytebodyCase, hSI, hBX, hX0, hX2, hmem, hout, hl, h0', a16, a0, hp, hfb, hkw, hlw, hkl, hk63]
+        · constructor <;> asm_exec [Gen.Asm.body_indexbytebodyCase, hSI, hBX, hX0, hX2, hmem, hout, hl, h0', a16, a0, hp, hfb, hkw, hlw, hkl]
     | true =>
       have hpt : (base + 16) % 4096 / 16 = 0 := by
         have := pageTest (base + 16); rw [hp] at this
@@ -154,29 +136,31 @@ theorem small_indexbytebodyCase_correct (mem : Nat → UInt8) (base len : Nat) (
       cases hb2 : blk (fun b => (b ||| 0x20) == c) mem (base + len - 16) (16 - len) len with
       | none =>
         rw [hb2] at hfb
-        constructor <;> asm_exec [Gen.Asm.small_indexbytebodyCase, h0', a16, am, hp, hlw, hfb]
+        constructor <;> asm_exec [Gen.Asm.body_indexbytebodyCase, hSI, hBX, hX0, hX2, hmem, hout, hl, h0', a16, am, hp, hlw, hfb]
       | some k =>
         rw [hb2] at hfb
         obtain ⟨_, hk16, _, _⟩ := blk_some hb2
         have hk63 : k - (16 - len) < 2 ^ 63 := by omega
-        constructor <;> asm_exec [Gen.Asm.small_indexbytebodyCase, h0', a16, am, hp, hlw, hfb, hk63]
-
+        constructor <;> asm_exec [Gen.Asm.body_indexbytebodyCase, hSI, hBX, hX0, hX2, hmem, hout, hl, h0', a16, am, hp, hlw, hfb, hk63]
 
 set_option maxRecDepth 8000 in
-set_option maxHeartbeats 4000000 in
-/-- **`indexByteBodyNonASCII`, `len < 16`** (the top bit of every data byte, straight from `PMOVMSKB`) -/
-theorem small_indexByteBodyNonASCII_correct (mem : Nat → UInt8) (base len : Nat) (c : UInt8) (junk : Reg → Nat) (jx : Nat → UInt8) (jz jc : Bool)
-    (h16 : len < 16) (hb : base + 32 < 2 ^ 64) :
-    (runSmall Gen.Asm.small_indexByteBodyNonASCII (init mem base len c junk jx jz jc)).out = some (small (fun b => decide (b ≥ 0x80)) mem base len).1 ∧
-    (runSmall Gen.Asm.small_indexByteBodyNonASCII (init mem base len c junk jx jz jc)).loads = (small (fun b => decide (b ≥ 0x80)) mem base len).2 := by
+set_option maxHeartbeats 8000000 in
+/-- **`indexByteBodyNonASCII`, `len < 16`** -/
+theorem small_indexByteBodyNonASCII_correct (mem : Nat → UInt8) (base len : Nat) (c : UInt8) (s : St) (f : Nat)
+    (h16 : len < 16) (hb : base + 32 < 2 ^ 64)
+    (hSI : s.r .SI = base) (hBX : s.r .BX = len) (hX0 : ∀ _j : Nat, True) (hX2 : ∀ _j : Nat, True)
+    (hmem : s.mem = mem) (hout : s.out = none) (hl : s.loads = []) (hf : 24 ≤ f) :
+    (run Gen.Asm.body_indexByteBodyNonASCII f (block Gen.Asm.body_indexByteBodyNonASCII "small") s).out = some (small (fun b => decide (b ≥ 0x80)) mem base len).1 ∧
+    (run Gen.Asm.body_indexByteBodyNonASCII f (block Gen.Asm.body_indexByteBodyNonASCII "small") s).loads = (small (fun b => decide (b ≥ 0x80)) mem base len).2 := by
   have hlw : len % W32 = len := Nat.mod_eq_of_lt (by unfold W32; omega)
   have a16 : (base + 0 + dispN 16) % W64 = base + 16 := by rw [dispN16]; unfold W64; omega
   have a0 : (base + 0 + dispN 0) % W64 = base := by rw [dispN0]; unfold W64; omega
-  unfold runSmall small
+  obtain ⟨g, rfl⟩ : ∃ g, f = g + 24 := ⟨f - 24, by omega⟩
+  unfold small
   by_cases h0 : len = 0
   · subst h0
     rw [if_pos rfl]
-    constructor <;> asm_exec [Gen.Asm.small_indexByteBodyNonASCII] <;> rfl
+    constructor <;> asm_exec [Gen.Asm.body_indexByteBodyNonASCII, hSI, hBX, hout, hl] <;> rfl
   · rw [if_neg h0]
     have h0' : (len == 0) = false := beq_eq_false_iff_ne.mpr h0
     cases hp : ((4080 &&& (base + 16)) % 65536 == 0) with
@@ -190,17 +174,15 @@ theorem small_indexByteBodyNonASCII_correct (mem : Nat → UInt8) (base len : Na
       cases hb2 : blk (fun b => decide (b ≥ 0x80)) mem base 0 16 with
       | none =>
         rw [hb2] at hfb
-        constructor <;> asm_exec [Gen.Asm.small_indexByteBodyNonASCII, h0', a16, a0, hp, hfb]
+        constructor <;> asm_exec [Gen.Asm.body_indexByteBodyNonASCII, hSI, hBX, hX0, hX2, hmem, hout, hl, h0', a16, a0, hp, hfb]
       | some k =>
         rw [hb2] at hfb
         obtain ⟨_, hk16, _, _⟩ := blk_some hb2
         have hkw : k % W32 = k := Nat.mod_eq_of_lt (by unfold W32; omega)
         by_cases hkl : k < len
-        · have hd : decide (k < len) = true := decide_eq_true hkl
-          have hk63 : k < 2 ^ 63 := by omega
-          constructor <;> asm_exec [Gen.Asm.small_indexByteBodyNonASCII, h0', a16, a0, hp, hfb, hkw, hlw, hd, hkl, hk63]
-        · have hd : decide (k < len) = false := decide_eq_false hkl
-          constructor <;> asm_exec [Gen.Asm.small_indexByteBodyNonASCII, h0', a16, a0, hp, hfb, hkw, hlw, hd, hkl]
+        · have hk63 : k < 2 ^ 63 := by omega
+          constructor <;> asm_exec [Gen.Asm.body_indexByteBodyNonASCII, hSI, hBX, hX0, hX2, hmem, hout, hl, h0', a16, a0, hp, hfb, hkw, hlw, hkl, hk63]
+        · constructor <;> asm_exec [Gen.Asm.body_indexByteBodyNonASCII, hSI, hBX, hX0, hX2, hmem, hout, hl, h0', a16, a0, hp, hfb, hkw, hlw, hkl]
     | true =>
       have hpt : (base + 16) % 4096 / 16 = 0 := by
         have := pageTest (base + 16); rw [hp] at this
@@ -212,28 +194,30 @@ theorem small_indexByteBodyNonASCII_correct (mem : Nat → UInt8) (base len : Na
       cases hb2 : blk (fun b => decide (b ≥ 0x80)) mem (base + len - 16) (16 - len) len with
       | none =>
         rw [hb2] at hfb
-        constructor <;> asm_exec [Gen.Asm.small_indexByteBodyNonASCII, h0', a16, am, hp, hlw, hfb]
+        constructor <;> asm_exec [Gen.Asm.body_indexByteBodyNonASCII, hSI, hBX, hX0, hX2, hmem, hout, hl, h0', a16, am, hp, hlw, hfb]
       | some k =>
         rw [hb2] at hfb
         obtain ⟨_, hk16, _, _⟩ := blk_some hb2
         have hk63 : k - (16 - len) < 2 ^ 63 := by omega
-        constructor <;> asm_exec [Gen.Asm.small_indexByteBodyNonASCII, h0', a16, am, hp, hlw, hfb, hk63]
-
+        constructor <;> asm_exec [Gen.Asm.body_indexByteBodyNonASCII, hSI, hBX, hX0, hX2, hmem, hout, hl, h0', a16, am, hp, hlw, hfb, hk63]
 
 set_option maxRecDepth 8000 in
-set_option maxHeartbeats 4000000 in
-/-- **`countbody`, `len < 16`**: the regenerated instruction sequence stores the block model's count and performs its load -/
-theorem small_countbody_correct (mem : Nat → UInt8) (base len : Nat) (c : UInt8) (junk : Reg → Nat) (jx : Nat → UInt8) (jz jc : Bool)
-    (h16 : len < 16) (hb : base + 32 < 2 ^ 64) :
-    (runSmall Gen.Asm.small_countbody (init mem base len c junk jx jz jc)).out = some ((cntSmall (fun b => b == c) mem base len).1 : Int) ∧
-    (runSmall Gen.Asm.small_countbody (init mem base len c junk jx jz jc)).loads = (cntSmall (fun b => b == c) mem base len).2 := by
+set_option maxHeartbeats 8000000 in
+/-- **`countbody`, `len < 16`** -/
+theorem small_countbody_correct (mem : Nat → UInt8) (base len : Nat) (c : UInt8) (s : St) (f : Nat)
+    (h16 : len < 16) (hb : base + 32 < 2 ^ 64)
+    (hSI : s.r .SI = base) (hBX : s.r .BX = len) (hX0 : ∀ j, s.x .X0 j = c) (hX2 : ∀ _j : Nat, True)
+    (hmem : s.mem = mem) (hout : s.out = none) (hl : s.loads = []) (hf : 24 ≤ f) :
+    (run Gen.Asm.body_countbody f (block Gen.Asm.body_countbody "small") s).out = some ((cntSmall (fun b => b == c) mem base len).1 : Int) ∧
+    (run Gen.Asm.body_countbody f (block Gen.Asm.body_countbody "small") s).loads = (cntSmall (fun b => b == c) mem base len).2 := by
   have a16 : (base + 0 + dispN 16) % W64 = base + 16 := by rw [dispN16]; unfold W64; omega
   have a0 : (base + 0 + dispN 0) % W64 = base := by rw [dispN0]; unfold W64; omega
-  unfold runSmall cntSmall
+  obtain ⟨g, rfl⟩ : ∃ g, f = g + 24 := ⟨f - 24, by omega⟩
+  unfold cntSmall
   by_cases h0 : len = 0
   · subst h0
     rw [if_pos rfl]
-    constructor <;> asm_exec [Gen.Asm.small_countbody] <;> rfl
+    constructor <;> asm_exec [Gen.Asm.body_countbody, hSI, hBX, hout, hl] <;> rfl
   · rw [if_neg h0]
     have h0' : (len == 0) = false := beq_eq_false_iff_ne.mpr h0
     cases hp : ((4080 &&& (base + 16)) % 65536 == 0) with
@@ -242,15 +226,15 @@ theorem small_countbody_correct (mem : Nat → UInt8) (base len : Nat) (c : UInt
         have := pageTest (base + 16); rw [hp] at this
         intro h; rw [beq_iff_eq.mpr h] at this; cases this
       rw [if_neg hpt]
-      have hm := lowMask_val (junk Reg.CX) len h16
+      have hm := lowMask_val (s.r Reg.CX) len h16
       have hcnt := popcnt_masked (fun j => if mem (base + j) = c then (255 : UInt8) else 0) (fun b => b == c) mem base
         (2 ^ len - 1) 0 len (by omega) (lowMask_bits len h16) (fun j => by by_cases h : mem (base + j) = c <;> simp [h])
       have hle := cntBits_le ((mask (fun j => if mem (base + j) = c then (255 : UInt8) else 0) 16 &&& (2 ^ len - 1)) % W32) 32 0
       have h63 : cntBits ((mask (fun j => if mem (base + j) = c then (255 : UInt8) else 0) 16 &&& (2 ^ len - 1)) % W32) 0 32 < 2 ^ 63 := by omega
       constructor
-      · asm_exec [Gen.Asm.small_countbody, h0', a16, a0, hp, hm, h63]
+      · asm_exec [Gen.Asm.body_countbody, hSI, hBX, hX0, hX2, hmem, hout, hl, h0', a16, a0, hp, hm, h63]
         rw [hcnt]
-      · asm_exec [Gen.Asm.small_countbody, h0', a16, a0, hp]
+      · asm_exec [Gen.Asm.body_countbody, hSI, hBX, hX0, hX2, hmem, hout, hl, h0', a16, a0, hp]
     | true =>
       have hpt : (base + 16) % 4096 / 16 = 0 := by
         have := pageTest (base + 16); rw [hp] at this
@@ -272,24 +256,27 @@ theorem small_countbody_correct (mem : Nat → UInt8) (base len : Nat) (c : UInt
       have h63 : cntBits ((mask (fun j => if mem (base + len - 16 + j) = c then (255 : UInt8) else 0) 16 &&&
         ((65535 >>> (16 - len)) <<< (16 - len))) % W32) 0 32 < 2 ^ 63 := by omega
       constructor
-      · asm_exec [Gen.Asm.small_countbody, h0', a16, am, hp, hm, h63]
+      · asm_exec [Gen.Asm.body_countbody, hSI, hBX, hX0, hX2, hmem, hout, hl, h0', a16, am, hp, hm, h63]
         rw [hcnt]
-      · asm_exec [Gen.Asm.small_countbody, h0', a16, am, hp]
+      · asm_exec [Gen.Asm.body_countbody, hSI, hBX, hX0, hX2, hmem, hout, hl, h0', a16, am, hp]
 
 set_option maxRecDepth 8000 in
-set_option maxHeartbeats 4000000 in
+set_option maxHeartbeats 8000000 in
 /-- **`countbodyCase`, `len < 16`** -/
-theorem small_countbodyCase_correct (mem : Nat → UInt8) (base len : Nat) (c : UInt8) (junk : Reg → Nat) (jx : Nat → UInt8) (jz jc : Bool)
-    (h16 : len < 16) (hb : base + 32 < 2 ^ 64) :
-    (runSmall Gen.Asm.small_countbodyCase (init mem base len c junk jx jz jc)).out = some ((cntSmall (fun b => (b ||| 0x20) == c) mem base len).1 : Int) ∧
-    (runSmall Gen.Asm.small_countbodyCase (init mem base len c junk jx jz jc)).loads = (cntSmall (fun b => (b ||| 0x20) == c) mem base len).2 := by
+theorem small_countbodyCase_correct (mem : Nat → UInt8) (base len : Nat) (c : UInt8) (s : St) (f : Nat)
+    (h16 : len < 16) (hb : base + 32 < 2 ^ 64)
+    (hSI : s.r .SI = base) (hBX : s.r .BX = len) (hX0 : ∀ j, s.x .X0 j = c) (hX2 : ∀ j, s.x .X2 j = 0x20)
+    (hmem : s.mem = mem) (hout : s.out = none) (hl : s.loads = []) (hf : 24 ≤ f) :
+    (run Gen.Asm.body_countbodyCase f (block Gen.Asm.body_countbodyCase "small") s).out = some ((cntSmall (fun b => (b ||| 0x20) == c) mem base len).1 : Int) ∧
+    (run Gen.Asm.body_countbodyCase f (block Gen.Asm.body_countbodyCase "small") s).loads = (cntSmall (fun b => (b ||| 0x20) == c) mem base len).2 := by
   have a16 : (base + 0 + dispN 16) % W64 = base + 16 := by rw [dispN16]; unfold W64; omega
   have a0 : (base + 0 + dispN 0) % W64 = base := by rw [dispN0]; unfold W64; omega
-  unfold runSmall cntSmall
+  obtain ⟨g, rfl⟩ : ∃ g, f = g + 24 := ⟨f - 24, by omega⟩
+  unfold cntSmall
   by_cases h0 : len = 0
   · subst h0
     rw [if_pos rfl]
-    constructor <;> asm_exec [Gen.Asm.small_countbodyCase] <;> rfl
+    constructor <;> asm_exec [Gen.Asm.body_countbodyCase, hSI, hBX, hout, hl] <;> rfl
   · rw [if_neg h0]
     have h0' : (len == 0) = false := beq_eq_false_iff_ne.mpr h0
     cases hp : ((4080 &&& (base + 16)) % 65536 == 0) with
@@ -298,15 +285,15 @@ theorem small_countbodyCase_correct (mem : Nat → UInt8) (base len : Nat) (c : 
         have := pageTest (base + 16); rw [hp] at this
         intro h; rw [beq_iff_eq.mpr h] at this; cases this
       rw [if_neg hpt]
-      have hm := lowMask_val (junk Reg.CX) len h16
+      have hm := lowMask_val (s.r Reg.CX) len h16
       have hcnt := popcnt_masked (fun j => if mem (base + j) ||| 32 = c then (255 : UInt8) else 0) (fun b => (b ||| 0x20) == c) mem base
         (2 ^ len - 1) 0 len (by omega) (lowMask_bits len h16) (fun j => by by_cases h : mem (base + j) ||| 32 = c <;> simp [h])
       have hle := cntBits_le ((mask (fun j => if mem (base + j) ||| 32 = c then (255 : UInt8) else 0) 16 &&& (2 ^ len - 1)) % W32) 32 0
       have h63 : cntBits ((mask (fun j => if mem (base + j) ||| 32 = c then (255 : UInt8) else 0) 16 &&& (2 ^ len - 1)) % W32) 0 32 < 2 ^ 63 := by omega
       constructor
-      · asm_exec [Gen.Asm.small_countbodyCase, h0', a16, a0, hp, hm, h63]
+      · asm_exec [Gen.Asm.body_countbodyCase, hSI, hBX, hX0, hX2, hmem, hout, hl, h0', a16, a0, hp, hm, h63]
         rw [hcnt]
-      · asm_exec [Gen.Asm.small_countbodyCase, h0', a16, a0, hp]
+      · asm_exec [Gen.Asm.body_countbodyCase, hSI, hBX, hX0, hX2, hmem, hout, hl, h0', a16, a0, hp]
     | true =>
       have hpt : (base + 16) % 4096 / 16 = 0 := by
         have := pageTest (base + 16); rw [hp] at this
@@ -328,8 +315,8 @@ theorem small_countbodyCase_correct (mem : Nat → UInt8) (base len : Nat) (c : 
       have h63 : cntBits ((mask (fun j => if mem (base + len - 16 + j) ||| 32 = c then (255 : UInt8) else 0) 16 &&&
         ((65535 >>> (16 - len)) <<< (16 - len))) % W32) 0 32 < 2 ^ 63 := by omega
       constructor
-      · asm_exec [Gen.Asm.small_countbodyCase, h0', a16, am, hp, hm, h63]
+      · asm_exec [Gen.Asm.body_countbodyCase, hSI, hBX, hX0, hX2, hmem, hout, hl, h0', a16, am, hp, hm, h63]
         rw [hcnt]
-      · asm_exec [Gen.Asm.small_countbodyCase, h0', a16, am, hp]
+      · asm_exec [Gen.Asm.body_countbodyCase, hSI, hBX, hX0, hX2, hmem, hout, hl, h0', a16, am, hp]
 
 end Asm
